@@ -41,6 +41,7 @@ pub fn exec_louvain(b: &Built, weighted: bool, res: Option<f64>, thr: Option<f64
     let sweeps = Rc::new(RefCell::new(0usize));
     let s2 = sweeps.clone();
     let plen = prefix.map(|p| p.len()).unwrap_or(usize::MAX);
+    let exact_weights = !weighted || b.edges.iter().all(|e| e.2.is_nan() || e.2.fract() == 0.0);
     let mut seen: HashSet<(usize, Vec<usize>)> = HashSet::new();
     let mut level = 0usize;
     verif_hooks::set_observer(Some(Box::new(move |site, state| {
@@ -54,8 +55,11 @@ pub fn exec_louvain(b: &Built, weighted: bool, res: Option<f64>, thr: Option<f64
             std::panic::panic_any(StopRun(format!("more than {hz} local-moving sweeps")));
         }
         // a repeated state once every dictated choice has been consumed is a lasso: from here on the
-        // explorer answers every choice with the default, so the sweep is a function of the state
-        if e3::POINT_COUNT.with(|c| c.get()) >= plen {
+        // explorer answers every choice with the default, so the sweep is a function of the state.
+        // Only with exactly representable weights: the per-community degree totals are updated with
+        // += / -= and are part of the real state; with inexact weights they drift, so an equal
+        // node->community vector is not an equal state and only the horizon applies.
+        if exact_weights && e3::POINT_COUNT.with(|c| c.get()) >= plen {
             if !seen.insert((level, state.to_vec())) {
                 std::panic::panic_any(StopRun("the local-moving state repeats (lasso)".into()));
             }
